@@ -89,7 +89,12 @@ func (vc *VCache) mapLabel(label uint64, mappedVersions distFromRoot) (uint64, b
 	if !found {
 		return label, false
 	}
-	return vm.value(mappedVersions)
+	// the supervoxel may have mappings only in versions outside this ancestry (e.g. a sibling branch)
+	mapped, present := vm.value(mappedVersions)
+	if !present {
+		return label, false
+	}
+	return mapped, true
 }
 
 // set mapping with expectation that SVMap has been locked for write
